@@ -597,6 +597,8 @@ class EqFn:
         """-> (term, kind) for content_id / origin values"""
         if isinstance(e, ast.Attribute) and e.attr in ("content_id", "origin"):
             b = e.value
+            if isinstance(b, ast.Call) and isinstance(b.func, ast.Name) and b.func.id == "cast" and len(b.args) == 2:
+                b = b.args[1]          # typing.cast(T, x) is x
             if isinstance(b, ast.Name) and b.id in self.nodes:
                 return f"({e.attr} {b.id})", e.attr
             if isinstance(b, ast.Attribute) and b.attr == "node" and isinstance(b.value, ast.Name) and b.value.id in self.items:
@@ -728,6 +730,28 @@ def generate_eq(src: Path) -> str:
             f"    (dfs : N → List N) ({ps[0]} {ps[1]} : N) : Except Unit Bool :=\n  {body}\n\nend PyOak.GenK\n")
 
 
+HEADER_ISEQ = """/- GENERATED by harness/py2lean_k.py from `ASTNode.is_equal` (src/pyoak/node.py) on every run of `./check C01`.
+   Do not edit: Props/GenBridgeIsEq.lean proves the hand-written model `isEqual` equal to exactly this definition (an OPTIONAL
+   obligation, see harness/kernels_tie.py). -/
+import PyOak.Gen.KernelsEq
+namespace PyOak.GenK
+"""
+
+
+def generate_is_equal(src: Path) -> str:
+    nd = K(src / "pyoak" / "node.py")
+    cls = nd.classes.get("ASTNode")
+    fn = None if cls is None else next((x for x in cls.body if isinstance(x, ast.FunctionDef) and x.name == "is_equal"), None)
+    if fn is None:
+        raise Unsupported("ASTNode.is_equal", "method not found")
+    t = EqFn(fn)
+    ps = [a.arg for a in fn.args.args]
+    body = t.block(fn.body, None)
+    return (HEADER_ISEQ + "\n/-- `ASTNode.is_equal` (src/pyoak/node.py) -/\n"
+            "def is_equal {N O : Type} [BEq O] (same_class : N → N → Bool) (content_id : N → List Char) (origin : N → O)\n"
+            f"    (dfs : N → List N) ({ps[0]} {ps[1]} : N) : Except Unit Bool :=\n  {body}\n\nend PyOak.GenK\n")
+
+
 def write_if_changed(src: Path, dest: Path) -> tuple[bool, str]:
     text = generate(src)
     if dest.exists() and dest.read_text() == text:
@@ -742,3 +766,4 @@ if __name__ == "__main__":
     print(generate(root))
     print(generate_xpath(root))
     print(generate_eq(root))
+    print(generate_is_equal(root))
